@@ -204,6 +204,19 @@ func (e *Env) Close() {
 // Stored reads the stored bytes of one log through the unwrapped store
 // (nil = nothing stored).
 func (e *Env) Stored(id string) []byte {
+	if e.DB != nil {
+		// Ground truth for the SQL store is read straight from the table,
+		// not through the persistence object (whose read path is under test).
+		var b []byte
+		err := e.DB.QueryRow("SELECT chkpt FROM chkpts WHERE logID = ?", id).Scan(&b)
+		if err == sql.ErrNoRows {
+			return nil
+		}
+		if err != nil {
+			panic(fmt.Sprintf("direct read of chkpts: %v", err))
+		}
+		return b
+	}
 	r, err := e.Raw.ReadOps(id)
 	if err != nil {
 		panic(fmt.Sprintf("raw ReadOps: %v", err))
